@@ -67,6 +67,23 @@ func exec(op string) string {
 			return "bad-op"
 		}
 		return "m=" + vh.Hex(m) + " u=" + bfe_tls.VerifC45Unmarshal(f[1], m)
+	case "rh":
+		if len(f[1]) != 2 {
+			return "bad-op"
+		}
+		var chunks [][]byte
+		for _, c := range strings.Split(f[2], ",") {
+			b, ok := vh.UnHex(c)
+			if !ok {
+				return "bad-op"
+			}
+			chunks = append(chunks, b)
+		}
+		vers := uint16(0x0301)
+		if f[1][1] == '1' {
+			vers = 0x0303
+		}
+		return bfe_tls.VerifC45ReadHandshake(vers, f[1][0] == '1', chunks)
 	case "ex":
 		d, ok := vh.UnHex(f[2])
 		if !ok {
@@ -510,7 +527,93 @@ func boundaries(kind string, m []byte) []int {
 	return b
 }
 
+// splitMsg cuts m into records: at structural boundaries, inside the 4-byte header, one byte at a time, with empty records
+func splitMsg(r *vh.Rand, kind string, m []byte) []string {
+	var cuts []int
+	switch r.Intn(6) {
+	case 0: // a single record
+	case 1: // inside the message header
+		cuts = []int{r.Range(1, 3)}
+	case 2: // every byte of the first bytes its own record
+		for i := 1; i < len(m) && i < 8; i++ {
+			cuts = append(cuts, i)
+		}
+	case 3: // at structural boundaries
+		bs := boundaries(kind, m)
+		for i := 0; i < 3; i++ {
+			cuts = append(cuts, bs[r.Intn(len(bs))])
+		}
+	default:
+		for i := r.Intn(5); i > 0 && len(m) > 0; i-- {
+			cuts = append(cuts, r.Intn(len(m)+1))
+		}
+	}
+	// sort, dedupe
+	for i := range cuts {
+		for j := i + 1; j < len(cuts); j++ {
+			if cuts[j] < cuts[i] {
+				cuts[i], cuts[j] = cuts[j], cuts[i]
+			}
+		}
+	}
+	var out []string
+	prev := 0
+	for _, c := range cuts {
+		if c < prev || c > len(m) {
+			continue
+		}
+		out = append(out, vh.Hex(m[prev:c])) // may be an empty record
+		prev = c
+	}
+	out = append(out, vh.Hex(m[prev:]))
+	if r.Chance(1, 6) {
+		i := r.Intn(len(out) + 1)
+		out = append(out[:i], append([]string{"-"}, out[i:]...)...)
+	}
+	return out
+}
+
+func genRH(r *vh.Rand) string {
+	k := kinds[r.Intn(len(kinds))]
+	fl, _ := parseFields(k, genFields(r, k))
+	m, _ := bfe_tls.VerifC45Marshal(k, fl)
+	tls12 := strings.HasSuffix(k, "1")
+	if k != "cr0" && k != "cr1" && k != "cv0" && k != "cv1" {
+		tls12 = r.Bool()
+	} else if r.Chance(1, 8) {
+		tls12 = !tls12 // parsed under the other version's layout
+	}
+	switch r.Intn(8) {
+	case 0: // the message ends before its announced length (transport EOF)
+		if len(m) > 4 {
+			m = m[:r.Range(0, len(m)-1)]
+		}
+	case 1: // more bytes follow (the next message)
+		m = append(append([]byte(nil), m...), r.Bytes(r.Range(1, 9))...)
+	case 2:
+		m = mutateK(r, k, m)
+	case 3: // the 3-byte length disagrees
+		if len(m) >= 4 {
+			m = append([]byte(nil), m...)
+			m[r.Range(1, 3)] ^= byte(1 << uint(r.Intn(8)))
+		}
+	case 4: // unknown / other message type
+		if len(m) > 0 {
+			m = append([]byte(nil), m...)
+			m[0] = []byte{0, 3, 5, 21, 23, 24, 255, 1, 2, 11, 13, 15, 20}[r.Intn(13)]
+		}
+	}
+	if len(m) > 40000 {
+		m = m[:40000]
+	}
+	flags := map[bool]string{true: "1", false: "0"}
+	return "rh " + flags[r.Chance(2, 3)] + flags[tls12] + " " + strings.Join(splitMsg(r, k, m), ",")
+}
+
 func gen(r *vh.Rand) string {
+	if r.Chance(1, 5) {
+		return genRH(r)
+	}
 	switch x := r.Intn(20); {
 	case x < 8:
 		k := kinds[r.Intn(len(kinds))]
@@ -567,6 +670,9 @@ func main() {
 			fl, _ := parseFields(k, full[k])
 			m, _ := bfe_tls.VerifC45Marshal(k, fl)
 			emit("rt " + k + " " + full[k])
+			for i := 0; i <= len(m); i++ { // the real readHandshake with the message cut into two records at every offset
+				emit("rh 11 " + vh.Hex(m[:i]) + "," + vh.Hex(m[i:]))
+			}
 			for i := 0; i <= len(m); i++ {
 				emit("um " + k + " " + vh.Hex(m[:i]))
 				if t := truncFix(k, m, i); t != nil {
